@@ -29,9 +29,9 @@ checks["C03"] = {
  "assumptions": BLOCK_ASSUME, "outside": OUT}
 checks["C05"] = {
  "level": "model_checking",
- "jobs": [job("Verif_C05_TLSF_Lemmas", list(range(15)), list(range(15))), job("Verif_C05_TLSF_Search", [10, 11, 32, 40], [10, 11, 32, 40, 41])],
- "bounds_quick": "lemmas at full 64-bit width for 15 block sizes (1 .. 2^62+12345): list index and memory class monotone in the size, in range of the arrays sized by Init, next-list rounding only reaches fitting sizes; search: recipe T(2,F,pi) on 256/320-byte blocks (2 allocations, 0-2 frees in any order), then one request with symbolic size, alignment 2^0..2^6, strategy, optional symbolic offset bound, compared with an exhaustive scan of the region list; bucket-boundary recipe (light): 1000-byte block, two holes of symbolic size 129..256 separated by live allocations, symbolic trailing free space 0..128, request of symbolic size 129..256, every strategy; merge recipe: 256-byte block with three holes of 60, 50 and 40 bytes in one free list (freed in every order), 8 free bytes at the end, then two arbitrary operations (free of any live allocation, or allocation of a symbolic size) and the request under test",
- "bounds_thorough": "search additionally from T(n<=4,F,pi) and from the bucket-boundary recipe on a 1000-byte block (two holes of symbolic size 1..300, symbolic trailing free space 0..200, request size symbolic, every strategy): covers every combination of free-list buckets of hole and request sizes",
+ "jobs": [job("Verif_C05_TLSF_Lemmas", list(range(15)), list(range(15))), job("Verif_C05_TLSF_Search", [10, 11, 32, 40, 52], [10, 11, 32, 40, 41, 52, 53])],
+ "bounds_quick": "lemmas at full 64-bit width for 15 block sizes (1 .. 2^62+12345): list index and memory class monotone in the size, in range of the arrays sized by Init, next-list rounding only reaches fitting sizes; search: recipe T(2,F,pi) on 256/320-byte blocks (2 allocations, 0-2 frees in any order), then one request with symbolic size, alignment 2^0..2^6, strategy, optional symbolic offset bound, compared with an exhaustive scan of the region list; bucket-boundary recipe (light): 1000-byte block, two holes of symbolic size 129..256 separated by live allocations, symbolic trailing free space 0..128, request of symbolic size 129..256, every strategy; merge recipe: 256-byte block with three holes of 60, 50 and 40 bytes in one free list (freed in every order), 8 free bytes at the end, then two arbitrary operations (free of any live allocation, or allocation of a symbolic size) and the request under test; padded-out recipe: 1000-byte block, live lead allocation of symbolic size 1..64 (the first hole starts at an arbitrary offset), holes of 100 and 200 bytes separated by live 16-byte allocations, 8 trailing free bytes, then a request of symbolic size, alignment 2^0..2^6, every strategy, optional symbolic offset bound (an aligned request can be too big for the first hole once padding is added and still fit the second)",
+ "bounds_thorough": "padded-out recipe also on the 4096-byte block; search additionally from T(n<=4,F,pi) and from the bucket-boundary recipe on a 1000-byte block (two holes of symbolic size 1..300, symbolic trailing free space 0..200, request size symbolic, every strategy): covers every combination of free-list buckets of hole and request sizes",
  "assumptions": BLOCK_ASSUME + ["granularity rules in force: none (null handler); the granularity-aware variant is part of C09's harness"], "outside": OUT}
 checks["C06"] = {
  "level": "model_checking",
@@ -149,8 +149,8 @@ checks["C20"] = {"level": "model_checking",
  "assumptions": VAM_ASSUME, "outside": VAM_OUT}
 
 checks["C12"] = {"level": "exploration",
- "jobs": [vjob("Verif_C12_Pairs", [0, 1, 2, 3, 4, 5, 6, 7], [0, 1, 2, 3, 4, 5, 6, 7])],
- "bounds_quick": "REDUCED FORM of the property: two goroutines, each running one API call (or a map+unmap pair), for 8 pairs named in the statement: allocate || free of distinct allocations of one block list; map/unmap || allocate in the same block; map/unmap || map/unmap of two allocations sharing a block; dedicated allocate || CalculateStatistics; pool create || pool destroy; CalculateStatistics || free; free || free (same block); free || free of the only allocations of two different blocks of one pool (the totals must equal those of a sequential execution: exactly one spare empty block remains). Every schedule with at most 2 pre-emptions is explored (scheduling points: mutex, atomic and sync.Pool operations, goroutine start/end; the scheduler's choices are decisions of the symbolic executor, one request size is symbolic); a vector-clock happens-before monitor over heap slots reports data races, a blocked-everywhere state reports deadlock; after the join the C02/C04 oracles and the error results are asserted. A reported race is confirmed natively by running the same harness 300 times under `go test -race`.",
+ "jobs": [vjob("Verif_C12_Pairs", list(range(13)), list(range(13)))],
+ "bounds_quick": "REDUCED FORM of the property: two goroutines, each running one API call (or a map+unmap pair), for 13 pairs named in the statement: allocate || free of distinct allocations of one block list; map/unmap || allocate in the same block; map/unmap || map/unmap of two allocations sharing a block; dedicated allocate || CalculateStatistics; pool create || pool destroy; CalculateStatistics || free; free || free (same block); free || free of the only allocations of two different blocks of one pool (the totals must equal those of a sequential execution: exactly one spare empty block remains); map/unmap || map/unmap of the same allocation (a further map/unmap must then succeed, no double map or stray unmap reaches the driver); dedicated allocate || free of another dedicated allocation; allocate || allocate in one pool whose block cannot take both (exactly two blocks afterwards, as in every sequential execution); pool create || pool create (distinct ids); dedicated allocate || dedicated allocate with room for exactly one more memory object under maxMemoryAllocationCount (exactly one request is granted, the device limit is never exceeded). Every schedule with at most 2 pre-emptions is explored (scheduling points: mutex, atomic and sync.Pool operations, goroutine start/end; the scheduler's choices are decisions of the symbolic executor, one request size is symbolic); a vector-clock happens-before monitor over heap slots reports data races, a blocked-everywhere state reports deadlock; after the join the C02/C04 oracles and the error results are asserted. A reported race is confirmed natively by running the same harness 300 times under `go test -race`.",
  "bounds_thorough": "same pairs (the thorough tier validates more schedules natively)",
  "assumptions": VAM_ASSUME + ["sequentially consistent atomics; happens-before edges from mutexes (RLock treated like Lock), atomics, sync.Pool, goroutine start and join", "the simulated driver is internally locked (as a Vulkan driver is thread-safe for distinct objects); its lock adds happens-before edges that can hide a race between accesses separated by driver calls on both sides", "race monitor granularity: heap slots reached through loads and stores; element accesses inside append/copy and map operations are not monitored"],
  "outside": "more than two goroutines; longer operation sequences per goroutine; schedules with more than 2 pre-emptions; pre-emption between two plain memory accesses (only relevant for racy code, which the monitor reports anyway); BuildStatsString; weak-memory effects; this is bounded schedule exploration, not a proof of race freedom"}
@@ -159,7 +159,7 @@ DEEP_NOTE = {'C16': '4 operations (3 after a recipe), block sizes 100 and 128, c
 # ---- thorough tier: description generated from the job lists ------------------------------------------------------
 LEGEND = {
  "Linear": "linear cfg: 0 empty 100-byte block, 1 empty 128-byte block, 2 ring buffer L3(3,j,m), 3 double stack L2(2,2), 4 stack L1(4) with freed middle entries, 5/6 compaction family with/without an upper stack, 7 small ring L3(2,1,2), 8 ring L3(2,1,3) with one symbolic size",
- "TLSF": "TLSF cfg = 10*scenario + block: block 0/1/2/3 = 256/320/1000/4096 bytes; scenario 0 history from the empty block, 1 recipe T(n,F,pi), 2 three holes in one free list, 3 one hole at an unaligned offset (C05 search: 0/1 recipes T(3)/T(2), 2 bucket-boundary recipe, 3 its light variant, 4 merge recipe)",
+ "TLSF": "TLSF cfg = 10*scenario + block: block 0/1/2/3 = 256/320/1000/4096 bytes; scenario 0 history from the empty block, 1 recipe T(n,F,pi), 2 three holes in one free list, 3 one hole at an unaligned offset (C05 search: 0/1 recipes T(3)/T(2), 2 bucket-boundary recipe, 3 its light variant, 4 merge recipe, 5 padded-out recipe)",
  "Defrag": "planner cfg = algorithm (0 Fast, 1 Full) + 2*layout (0: one block, 1: two blocks, 2: three blocks) + 6*(symbolic per-pass limits)",
  "vam": "vam cfg: low 5 bits = device variant (1 granularity 1024, 2 nonCoherentAtomSize 64, 4 heap size limits, 8 maxMemoryAllocationCount 2, 16 excluded AMD device-coherent type); higher bits select the scenario of the entry (Hist: 32 custom pools, 64 multi-allocations, 96 pool index sweep; Faults: cfg/32 = operation 0..7; Maps: 32 non-coherent type, 64 flush focus, 128 odd-sized pool block, 256 hysteresis window-phase sweep; VDefrag: 32 Fast instead of Full algorithm, 64 five allocations, 128 mapped-neighbour layout, 192 pool with MinAllocationAlignment 32; Pages: cfg%2 linear, cfg/2%3 granularity 16/1024/4096, 6+ page-boundary recipe, 12+ double-stack script (lower request, upper request, one arbitrary operation); Select: N=3+cfg%4 types, 4 integrated GPU, 8 AMD extension)",
 }
